@@ -42,6 +42,13 @@ def gen_pipeline(ch, prof):
     for _ in range(g.weighted([(0, 3), (1, 2), (3, 1)])):
         out["user"].append({"at": g.pick([1.0, 10.0, 60.0, 400.0, 3000.0]) * (0.5 + g.rint(0, 10) / 10.0),
                             "cmd": g.pick(["try-submit-jobs", "show-status"]), "stage": "current"})
+    # the user resubmits an already completed stage while a later stage is running
+    hpc_stages = [i + 1 for i in range(n_stages - 1) if stages[i]["mode"] == "hpc"]
+    if hpc_stages and g.flip(0.3):
+        k = g.pick(hpc_stages)   # (resubmit-jobs is an HPC-mode command)
+        out["user"].append({"resubmit_stage": k, "flags": g.pick([["--successful"], [], ["--successful", "--no-failed"]]),
+                            "after_stage_event": g.pick(["sbatch", "job_launch", "job_exit"]),
+                            "delay": g.pick([0.0, 0.5, 5.0])})
     return out
 
 
@@ -62,6 +69,7 @@ class PipelineDriver(Driver):
     def __init__(self, w, prof):
         super().__init__(w, prof)
         self.pdir = os.path.join(w.shared_root, "pipeline")
+        self.stage_resubmits = []
 
     def start(self):
         w = self.w
@@ -69,7 +77,41 @@ class PipelineDriver(Driver):
         w.run_user_cmd(["jade", "pipeline", "submit", os.path.join(w.shared_root, "pipeline.json"), "-o", self.pdir],
                        tag="submit")
         for u in w.scenario.get("user", []):
-            self._schedule_current(u)
+            if "resubmit_stage" in u:
+                self.stage_resubmits.append(dict(u, done=False))
+            else:
+                self._schedule_current(u)
+
+    def on_record(self, rec):
+        super().on_record(rec)
+        if not self.stage_resubmits:
+            return
+        seq, vt, kind, vpid, d = rec
+        w = self.w
+        for u in self.stage_resubmits:
+            if u["done"] or kind != u["after_stage_event"]:
+                continue
+            k = u["resubmit_stage"]
+            nxt = f"pipeline/output-stage{k + 1}"
+            path = d.get("output") if kind == "sbatch" else w.rel((d.get("env") or {}).get("JADE_RUNTIME_OUTPUT") or "")
+            if kind == "job_exit":
+                spec = w.jobspec.get(d.get("name")) or {}
+                path = nxt if d.get("name", "").startswith(f"s{k + 1}j") else None
+            if path != nxt:
+                continue
+            u["done"] = True
+            sd = os.path.join(self.pdir, f"output-stage{k}")
+
+            def fire(sd=sd, u=u):
+                try:
+                    cfg = state.read_json(os.path.join(sd, "cluster_config.json"))
+                except state.Unparsable:
+                    return
+                if cfg and cfg.get("is_complete"):
+                    w.probe("pipeline_stage_resubmitted")
+                    w.run_user_cmd(["jade", "resubmit-jobs", sd] + list(u["flags"]), tag="resubmit_stage")
+
+            w.after(float(u["delay"]), fire, "user")
 
     def pipeline_state(self):
         try:
@@ -149,7 +191,7 @@ class C15(Monitor):
         f[what] = seq
         prev = self._prev(sub)
         if prev is not None:
-            cs = prev.complete_seq.get(prev.epoch)
+            cs = min(prev.complete_seq.values()) if prev.complete_seq else None
             if cs is None or cs > seq:
                 self.bad("stage_started_early", "a stage was configured or submitted before the previous stage completed",
                          f"stage {self._stage_no(sub)}: first {what} at seq {seq}; stage {self._stage_no(prev)} "
@@ -204,7 +246,7 @@ class C15(Monitor):
         for k in range(1, n_st + 1):
             st = ps["stages"][k - 1]
             sub = subs.get(f"pipeline/output-stage{k}")
-            done = sub is not None and sub.epoch in sub.complete_seq
+            done = sub is not None and bool(sub.complete_seq)
             if k < sn:
                 if not done:
                     self.bad("stage_num_ahead", "recorded current stage is ahead of what happened",
@@ -230,7 +272,7 @@ class C15(Monitor):
             if self.complete_seen > 1:
                 self.bad("pipeline_completed_twice", "the pipeline was marked complete more than once", f"seq {seq}")
             last = subs.get(f"pipeline/output-stage{n_st}")
-            if last is None or last.epoch not in last.complete_seq:
+            if last is None or not last.complete_seq:
                 self.bad("pipeline_complete_early", "the pipeline was marked complete before its last stage completed",
                          f"seq {seq}")
             if sn != n_st + 1:
@@ -264,7 +306,8 @@ class C15(Monitor):
                 self.bad("stage_not_submitted_once", "a pipeline stage was not submitted exactly once",
                          f"stage {k}: {self.submit_cmds.get(k, 0)} submissions")
                 continue
-            chk.check(sub)
+            if sub.epoch == 0:  # (results of a resubmitted stage are C13's subject)
+                chk.check(sub)
         for v in w.violations[before:]:
             if v["property"] == "C03":
                 v["property"] = "C15"
